@@ -94,7 +94,7 @@ def c13b(ctx):
     fn = ctx.fn(TILE + ':TileManager.expire_timestamp')
     g = fn.cfg
     calls = g.find(lambda x: is_call(x, 'before_timestamp_from_options'))
-    ok = bool(calls) and all(isinstance(getattr(x, '_parent', None), ast.Return) and unparse(x.args[0]) == 'self._refresh_before' for n, x in calls)
+    ok = bool(calls) and all(isinstance(getattr(x, '_parent', None), ast.Return) and fn.ctext(x.args[0]) == 'self._refresh_before' for n, x in calls)
     stores = [s for s in fn.walk() if isinstance(s, (ast.Assign, ast.AugAssign)) and any(unparse(t).startswith('self.') for t in (s.targets if isinstance(s, ast.Assign) else [s.target]))]
     ctx.check(ok and not stores, 'TileManager.expire_timestamp:per-use', 'a relative refresh rule is evaluated on every call (nothing is memoised in an attribute)', fn,
               fail='the refresh threshold is computed once and stored: a relative age ("older than 1 hour") stops moving with the clock')
